@@ -1378,15 +1378,25 @@ func (w *c18World) lengthGuards(fi *FuncInfo) {
 				continue
 			}
 		}
+		staticLen := int64(-1) // length of X when it is fixed by the program text (arrays, constant tables)
 		switch u := info.TypeOf(X).Underlying().(type) {
 		case *types.Map:
 			continue
 		case *types.Slice:
+		case *types.Array:
+			staticLen = u.Len()
 		case *types.Basic:
 			if u.Info()&types.IsString == 0 {
 				continue
 			}
 		default:
+			if pt, isPtr := u.(*types.Pointer); isPtr {
+				if arr, isArr := pt.Elem().Underlying().(*types.Array); isArr {
+					// p[i] on a pointer to an array: the length is that of the array (a nil pointer is not a bounds question)
+					staticLen = arr.Len()
+					break
+				}
+			}
 			c.undecided("C18.e", fi.Name+"/"+types.ExprString(h.Node.(ast.Expr)), h.Node.Pos(), "index of a %s: not analysed", info.TypeOf(X))
 			continue
 		}
@@ -1426,6 +1436,9 @@ func (w *c18World) lengthGuards(fi *FuncInfo) {
 			}
 			X = se.X
 		}
+		if staticLen < 0 {
+			staticLen = c18TableLen(c, fi, X, singleDef)
+		}
 		// lower bound
 		var t Term
 		k := lf.k
@@ -1463,7 +1476,15 @@ func (w *c18World) lengthGuards(fi *FuncInfo) {
 		xt := termOf(info, X)
 		lx := Term{ID: "len(" + xt.ID + ")"}
 		why := ""
+		if staticLen >= 0 {
+			// len(X) == staticLen: need t + need <= staticLen, i.e. a constant index below the length, or a guard
+			// in force that bounds t from above (the hull of a multi-value case, `if p < 30`, ...)
+			if bound := staticLen - need; (t.ID == "" && bound >= 0) || (t.ID != "" && impliesLin(facts, t, Term{}, bound)) {
+				why = fmt.Sprintf("len(%s) is fixed at %d and the guards in force bound the index", types.ExprString(X), staticLen)
+			}
+		}
 		switch {
+		case why != "":
 		case need <= 0 && t.ID == "":
 			why = "constant bound"
 		case need <= 0 && t.ID == lx.ID:
